@@ -27,6 +27,13 @@ Section Model.
     fp_pressure : list T; fp_mscaled : list T; fp_alpha : list T;
     fp_m_i : T; fp_alpha_lo : T; fp_alpha_hi : T; fp_density : list T }.
 
+  Fixpoint all_some_opt (l : list (option T)) : option (list T) :=
+    match l with
+    | [] => Some []
+    | Some x :: t => match all_some_opt t with Some r => Some (x :: r) | None => None end
+    | None :: _ => None
+    end.
+
   Definition half := n1 N /! n2 N.
 
   (* 1/2 * c * p * mu * z / p**2, evaluated left to right as numpy does *)
@@ -68,6 +75,16 @@ Section Model.
                 fp_alpha_lo := lmin N (hd (n0 N) alpha_col) alpha_col;
                 fp_alpha_hi := lmax N (hd (n0 N) alpha_col) alpha_col;
                 fp_density := t_density tb |}
+    end.
+
+  (* rescale_pseudopressure(df, p_frac, p_i): new pseudopressure column *)
+  Definition rescale_pseudopressure (p pp : list T) (p_frac p_i : T) : option (list T) :=
+    match interp1d N Strict p pp p_frac, interp1d N Strict p pp p_i with
+    | Some mf, Some mi =>
+        all_some_opt (map (fun q => match interp1d N Strict p pp q with
+                                    | Some mq => Some ((mq -! mf) /! (mi -! mf))
+                                    | None => None end) p)
+    | _, _ => None
     end.
 
   Definition m_scaled_func (fp : flowprops) (p : T) : option T :=
